@@ -101,7 +101,7 @@ Definition st_canonical (size : nat) : lstate T :=
      st_min := vresize [] size (k_inf K);
      st_set := u_canonical size;
      st_chain := vresize [] size 0;
-     st_queue := h_canonical (k_max K) size;
+     st_queue := h_canonical (k_inf K) size;
      st_nearest := vresize [] size 0 |}.
 
 (* For ANY previous state - vectors of any length with any contents, e.g.
